@@ -31,8 +31,39 @@ pub struct TracedTexError {
     )]
     pub error: Box<dyn TexError>,
     pub stack_trace: Vec<StackTraceElement>,
+    // Serialized as a list of pairs: formats like JSON only support string keys in maps.
+    #[cfg_attr(
+        feature = "serde",
+        serde(
+            serialize_with = "serialize_token_traces",
+            deserialize_with = "deserialize_token_traces"
+        )
+    )]
     pub token_traces: HashMap<token::Token, trace::SourceCodeTrace>,
     pub end_of_input_trace: Option<trace::SourceCodeTrace>,
+}
+
+#[cfg(feature = "serde")]
+fn serialize_token_traces<S>(
+    value: &HashMap<token::Token, trace::SourceCodeTrace>,
+    serializer: S,
+) -> Result<S::Ok, S::Error>
+where
+    S: serde::Serializer,
+{
+    serializer.collect_seq(value.iter())
+}
+
+#[cfg(feature = "serde")]
+fn deserialize_token_traces<'de, D>(
+    deserializer: D,
+) -> Result<HashMap<token::Token, trace::SourceCodeTrace>, D::Error>
+where
+    D: serde::Deserializer<'de>,
+{
+    use serde::Deserialize;
+    let pairs = Vec::<(token::Token, trace::SourceCodeTrace)>::deserialize(deserializer)?;
+    Ok(pairs.into_iter().collect())
 }
 
 #[cfg(feature = "serde")]
